@@ -94,7 +94,15 @@ def run(v, O):
     for i in range(v.nmods):
         final = getattr(v, f'm{i}')
         lines.append(f'w = {O.lit(final)}')
-    r = outcome(lambda: dip_parse('\\n'.join(lines)))
+    if getattr(v, 'twostep', False):
+        # the constrained definition is parsed first; the modification arrives in a second parse on top of that environment
+        ndef = len(lines) - v.nmods
+        r1 = outcome(lambda: dip_parse('\\n'.join(lines[:ndef])))
+        if r1[0] != 'ok':
+            return [('no claim: the definition itself is rejected', True)]
+        r = outcome(lambda: dip_parse('\\n'.join(lines[ndef:]), r1[1]))
+    else:
+        r = outcome(lambda: dip_parse('\\n'.join(lines)))
     x = final
     def st(kind, a, c):      # definitely true: beyond the tolerance band
         far = O.not_(tol_eq(O, a, c))
@@ -168,6 +176,14 @@ def scenarios(tier, seed):
                     inp.update({f'm{i}': kind for i in range(nmods)})
                     S.append(Scenario(f'condition/{dtype}/{unit}/{bunit}/{op}/{nmods}', COND_SRC, inp, consts={'unit': unit, 'bunit': bunit, 'op': op, 'nmods': nmods, 'dtype': dtype},
                                       preamble=PRE, what=f'{dtype} node in {unit} with condition {op} (bound in {bunit or unit})', samples=2))
+    for unit, bunit in (('m', None), ('m', 'cm'), (None, None)):
+        for op in ('lt', 'ge', 'range', 'ne'):
+            dtype = 'float'
+            inp = {'v0': 'real', 'b': 'real', 'm0': 'real'}
+            if op == 'range':
+                inp['lo'] = 'real'
+            S.append(Scenario(f'condition-twostep/{unit}/{bunit}/{op}', COND_SRC, inp, consts={'unit': unit, 'bunit': bunit, 'op': op, 'nmods': 1, 'dtype': dtype, 'twostep': True},
+                              preamble=PRE, what=f'float node in {unit} with condition {op}, modified in a second parse on top of the first environment', samples=2))
     for unit, bunit in (('m', 'cm'), ('J', 'erg'), ('m', None)):
         for op in ('lt', 'ge', 'eq', 'gt'):
             S.append(Scenario(f'condition-ref/{unit}/{bunit}/{op}', COND_SRC, {'v0': 'real', 'b': 'real'}, consts={'unit': unit, 'bunit': bunit, 'op': op, 'nmods': 0, 'dtype': 'float', 'refbound': True},
